@@ -146,7 +146,8 @@ package mlink
 //@   call invalidate#1: s = tl, m = c.list.n - c.pos
 //@   at entry: assert [C10] !stale(c) ==> linkAt(c.list, c.pos)
 //@   at entry: ghost tl = lambda k int :: c.list.seq[c.pos + 1 + k]
-//@   at before "c.pred.link = nil": assert [C10] forall k int :: {c.list.seq[k]} c.pos < k && k <= c.list.n ==> tl[k - c.pos - 1] == c.list.seq[k] && c.list.seq[k].link == c.list.seq[k]
+//@   at before "c.pred.link = nil": assert [C10] forall k int :: {c.list.seq[k]} c.pos < k && k <= c.list.n ==> tl[k - c.pos - 1] == c.list.seq[k]
+//@   at before "c.pred.link = nil": assert [C10] forall k int :: {c.list.seq[k]} c.pos < k && k <= c.list.n ==> c.list.seq[k].link == c.list.seq[k]
 //@   at exit: ghost c.list.n = c.pos
 //@
 //@ func (*Cursor).Add
